@@ -9,6 +9,7 @@ package main
 // the real Message/Parameters/Data code: no concrete command produces them).
 
 import (
+	"bytes"
 	"encoding/binary"
 	"fmt"
 	"reflect"
@@ -820,6 +821,19 @@ func genC03(r *Rng, tier string) []Case {
 		for reply := 0; reply < 2; reply++ {
 			both("c03.dispatch", []string{fmt.Sprint(reply), fmt.Sprint(code)}, "dispatch.factory")
 			unm(append(c03HeaderBytes(rx, uint8(code), reply == 1), 0, 0, 0), "dispatch.unmarshal-empty-blocks")
+			// the other header fields have no say in the dispatch: all of them at their extremes (all-ones: TID, PID,
+			// UID, MID = 0xFFFF, every flag set; all-zero), with only the reply bit as the case asks
+			for _, fill := range []byte{0xFF, 0x00} {
+				hb := bytes.Repeat([]byte{fill}, 32)
+				copy(hb, []byte{0xFF, 'S', 'M', 'B'})
+				hb[4] = uint8(code)
+				if reply == 1 {
+					hb[9] |= 0x80
+				} else {
+					hb[9] &^= 0x80
+				}
+				unm(append(hb, 0, 0, 0), "dispatch.unmarshal-extreme-header")
+			}
 			if thorough || code%4 == 0 {
 				w := rx.Bytes(2 * rx.Intn(6))
 				rb := append(c03HeaderBytes(rx, uint8(code), reply == 1), c03Blocks(w, rx.Bytes(rx.Intn(12)))...)
